@@ -8,7 +8,7 @@ TB_COMMON = [
 
 PROPS = {
     "C17": {
-        "thm": ["Umya.Thm.C17", "Umya.Thm.C17Gen"],
+        "thm": ["Umya.Thm.C17", "Umya.Thm.C17Gen", "Umya.Thm.C17Regex"],
         "harness": "c17",
         "level": "proof",
         "level_text": "Proof: the codecs of helper/coordinate.rs, helper/range.rs, helper/address.rs and structs/{range,address} are modelled as "
@@ -16,7 +16,7 @@ PROPS = {
                       "and the model is tied to the code by an exhaustive + random differential check on every run.",
         "level_note": "Trusted: Lean kernel + 3 standard axioms; the hand model's faithfulness as exercised by the correspondence stream; "
                       "fancy_regex behaviour on one regex (modelled); ASCII-only upper-casing.",
-        "expect_theorems": ["C17_codec_matches_source", "C17_alpha_index", "C17_alpha_index3", "C17_index_alpha", "C17_bijective_numeral",
+        "expect_theorems": ["C17_codec_matches_source", "C17_regex_matches_source", "C17_alpha_index", "C17_alpha_index3", "C17_index_alpha", "C17_bijective_numeral",
                             "C17_coord", "C17_range", "C17_address", "C17_address_quoted", "C17_address_ptn2"],
         "rule": "exhaustive: every column 0..18279 and every 1-3 letter name; rows 1..1048576 (stride 257 quick / 1 thorough) x "
                 "{A,Z,AA,ZZ,AAA,XFD} x 4 lock combinations; random strings over $A-Za-z0-9:!'\" against the regex model; "
